@@ -3,6 +3,7 @@ import json
 
 from core import Property, Stream
 import reports_common as rc
+from c01_e2e import E2EModelStream
 
 CATS = ("missing", "unused", "bad", "deprecated", "noext", "nocop", "nolic", "readerr")
 
@@ -58,12 +59,17 @@ class CellStream(VerdictOracle, Stream):
 
 PROPERTY = Property(
     pid="C01",
-    streams=[TreeStream(), CellStream()],
+    streams=[TreeStream(), CellStream(), E2EModelStream()],
     table_roundtrip=rc.table_roundtrip,
     assumptions=[
-        "the model receives the abstract project (per covered file: readable?, any copyright line?, identifiers of each expression; the "
-        "names below LICENSES/) from the generator's records; extraction, precedence and the covered-file walk are exercised end to end "
-        "by the streams and are the subject of C02-C04",
+        "streams trees / cells: the model receives the abstract project (per covered file: readable?, any copyright line?, identifiers "
+        "of each expression; the names below LICENSES/) from the generator's records; stream e2e-model: the composed model "
+        "(Model/LintE2E.lean) receives the tree itself (bytes of every regular file) and computes walk, own source, REUSE.toml chain, "
+        "extraction, attribution, LICENSES/ entries and the report; oracles there (parameters of the model, answered by the real "
+        "libraries): binaryornot, tomlkit (REUSE.toml as its list of tables), python-debian (.reuse/dep5 as its paragraphs), "
+        "license-expression (parses?, keys, rendering); no VCS in that stream",
+        "outside the composed model: special files (FIFOs), symlinks below LICENSES/, a live symlink as FILE.license, a dep5 licence "
+        "synopsis that does not parse",
         "read errors are provoked with a FIFO (the sandbox runs as root, so permissions cannot be used)",
         "theorems carry plainNames (see C06) and `generate … = some r` (no two LICENSES/ entries with one identifier: the tool stops, C16)",
     ],
